@@ -180,23 +180,19 @@ def c_latency_total(c):
 
 
 # ---- resource_usage -----------------------------------------------------------------------------------
-SPLIT = Function("str_split_sep", Val, Val)       # col.split("<SEP>") as an opaque tuple
 RES = Function("reservation_column", Val, RealSort())
+PARTS = Function("name_parts", Val, ArraySort(IntSort(), Elem))
+NPARTS = Function("name_part_count", Val, IntSort())
 P.classes |= {"Mappings"}
-
-
-@P.external("split", "str.split('<SEP>'): a pure function of the string")
-def c_split(c):
-    s_ = c.arg("self", VAL)
-    c.arg("sep", CONST("<SEP>"))
-    c.result_is(SPLIT(s_))
 
 
 @P.external("_get_keys_of_length", "Mappings._get_keys_of_length(n): some list of column names", cls="Mappings")
 def c_keys_of_length(c):
     c.arg("self", OBJ("Mappings"))
-    c.arg("length", INT)
-    c.result(SEQ(VAL))
+    ln = c.arg("length", INT)
+    r = c.result(SEQ(VAL))
+    kk = Int("kl")
+    c.post("names_with_that_many_parts", lambda r: ForAll([kk], Implies(And(kk >= 0, kk < r.n), NPARTS(at(r, kk)) == ln), patterns=[at(r, kk)]))
 
 
 @P.external("__getitem__", "Mappings[col]: the column's value (pure)", cls="Mappings")
@@ -210,11 +206,11 @@ def c_getcol(c):
 def c_resource_usage(c):
     """usage[resource] = the maximum over that resource's reservation columns (and 0)"""
     c.var("reservations", OBJ("Mappings"))
-    c.local("usage", MAP(VAL, REAL))
+    c.local("usage", MAP(ELEM, REAL))
     ex = c.ex
-    r, i = Const("rr", Val), Int("ri")
+    r, i = Const("rr", Elem), Int("ri")
     mx = lambda a, b: If(a >= b, a, b)
-    res_of = lambda col: ITEM(SPLIT(col), 0)
+    res_of = lambda col: Select(PARTS(col), 0)
 
     # the ghost functions must be the same in the invariant and the postcondition: build them once per path
     cache = {}
@@ -222,8 +218,8 @@ def c_resource_usage(c):
     def spec_once(m, cols, upto):
         key = arrs_of(ex.materialize(cols))[0].get_id()
         if key not in cache:
-            SEEN = Function(fresh_name("resource_seen"), Val, IntSort(), BoolSort())
-            MX = Function(fresh_name("resource_max"), Val, IntSort(), RealSort())
+            SEEN = Function(fresh_name("resource_seen"), Elem, IntSort(), BoolSort())
+            MX = Function(fresh_name("resource_max"), Elem, IntSort(), RealSort())
             (ca,) = arrs_of(ex.materialize(cols))
             col = lambda k: Select(ca, k)
             ex.assume(ForAll([r], And(Not(SEEN(r, 0)), MX(r, 0) == 0), patterns=[SEEN(r, 0)]))
@@ -244,3 +240,97 @@ def c_resource_usage(c):
     c.invariant("L0", inv)
     c.post("a_resource_has_an_entry_iff_it_has_a_reservation_column", lambda res: spec_once(res["usage"], state["cols"], state["cols"].n)[0][1])
     c.post("the_entry_is_the_maximum_reservation_and_at_least_zero", lambda res: spec_once(res["usage"], state["cols"], state["cols"].n)[1][1])
+
+
+# ---- Mappings._get_cols: which columns carry a key (whole function) ---------------------------------------
+# A column name is a '<SEP>'-separated list of parts; PARTS / NPARTS give the parts of a column name
+# (str.split is assumed to be a pure function, and '<SEP>'.join(parts) to give the name back).
+P.field("data", OBJ("DataFrame"))
+P.field("columns", SEQ(VAL))
+P.classes |= {"DataFrame"}
+
+
+@P.external("split", "str.split('<SEP>') of a column name: its list of parts (pure; at least one part)")
+def c_split_name(c):
+    s_ = c.arg("self", VAL)
+    c.arg("sep", CONST("<SEP>"))
+    if c.mode == "call":
+        c.ex.assume(NPARTS(s_) >= 1)
+        r = SeqV(Elem, PARTS(s_), NPARTS(s_))
+        r.split_of = s_
+        c.result_is(r)
+
+
+@P.external("join", "'<SEP>'.join(parts) of the parts of a column name: that name (split and join are inverse)")
+def c_join_name(c):
+    c.arg("self", CONST("<SEP>"))
+    parts = c.arg("iterable", CONST(None))
+    if c.mode == "call":
+        src = getattr(parts, "split_of", None)
+        if src is None:
+            raise VV.Unsupported("join of something other than the unmodified parts of a column name")
+        c.result_is(src)
+
+
+@P.fn(F, "Mappings._get_cols")
+def c_get_cols(c):
+    self_ = c.arg("self", OBJ("Mappings"))
+    key = c.arg("key", ELEM)
+    idx = c.arg("col_idx", OPT(INT), default=None)
+    c.local("found", SEQ(VAL))
+    c.local("found_index", OPT(INT))
+    ex = c.ex
+    cols = ex.read_field(ex.read_field(self_, "data"), "columns")
+    (ca,) = arrs_of(cols)
+    C = lambda k: Select(ca, k)
+    part = lambda col, j: Select(PARTS(col), j)
+    k, j, j2, p, q = Ints("gk gj gj2 gp gq")
+    has_key = lambda col: Exists([j], And(j >= 0, j < NPARTS(col), part(col, j) == key))
+    at_pos = lambda col, pos: And(pos >= 0, pos < NPARTS(col), part(col, pos) == key)
+    once = lambda col: ForAll([j, j2], Implies(And(j >= 0, j < NPARTS(col), j2 >= 0, j2 < NPARTS(col), part(col, j) == key, part(col, j2) == key), j == j2))
+    c.pre("every_column_name_has_a_part", ForAll([k], Implies(And(k >= 0, k < cols.n), NPARTS(C(k)) >= 1), patterns=[C(k)]))
+    c.pre("requested_position_is_a_position", Or(idx.isnone, idx.val >= 0))
+    c.result(TUP(SEQ(VAL), OPT(INT)))
+    c.raises("ValueError", when=None)
+    # selected(k, pos): column k is selected for key position pos
+    sel_given = lambda col: at_pos(col, idx.val)          # a position was requested: the key sits exactly there
+
+    def posts_given(r):
+        found, fi = r.items[0], r.items[1]
+        found = ex.materialize(found)
+        fa = arrs_of(found)[0]
+        return And(
+            Not(fi.isnone) if isinstance(fi, VV.OptV) else BoolVal(True),
+            # every returned name is a column with the key at the requested position, in column order, and every such column is returned
+            ForAll([p], Implies(And(p >= 0, p < found.n), Exists([k], And(k >= 0, k < cols.n, C(k) == Select(fa, p), sel_given(C(k)))))),
+            ForAll([k], Implies(And(k >= 0, k < cols.n, sel_given(C(k))), mem(found, C(k)))))
+
+    c.post("with_a_requested_position_exactly_the_columns_with_the_key_there", lambda r: Implies(Not(idx.isnone), posts_given(r)))
+
+    def posts_free(r):
+        found, fi = r.items[0], r.items[1]
+        found = ex.materialize(found)
+        fa = arrs_of(found)[0]
+        pos = fi.val if isinstance(fi, VV.OptV) else fi
+        none = fi.isnone if isinstance(fi, VV.OptV) else BoolVal(False)
+        return And(
+            ForAll([k], Implies(And(k >= 0, k < cols.n, has_key(C(k))), And(Not(none), at_pos(C(k), pos), mem(found, C(k))))),
+            ForAll([p], Implies(And(p >= 0, p < found.n), Exists([k], And(k >= 0, k < cols.n, C(k) == Select(fa, p), has_key(C(k)))))))
+
+    c.post("without_a_position_every_column_with_the_key_at_one_common_position", lambda r: Implies(idx.isnone, posts_free(r)))
+    if c.mode != "verify":
+        return
+
+    def inv(L):
+        found, fi = ex.materialize(L.v("found")), L.v("found_index")
+        fa = arrs_of(found)[0]
+        n_ = L.k
+        sel = lambda col: If(idx.isnone, has_key(col), sel_given(col))
+        return [
+            ("found_index_is_the_requested_position_or_the_common_one", If(idx.isnone, Implies(Exists([k], And(k >= 0, k < n_, has_key(C(k)))), Not(fi.isnone)), And(Not(fi.isnone), fi.val == idx.val))),
+            ("found_are_selected_columns_seen", forall([p], Implies(And(p >= 0, p < found.n), Exists([k], And(k >= 0, k < n_, C(k) == Select(fa, p), sel(C(k))))), patterns=[Select(fa, p)])),
+            ("selected_columns_seen_are_found", forall([k], Implies(And(k >= 0, k < n_, sel(C(k))), mem(found, C(k))), patterns=[C(k)])),
+            ("without_a_position_seen_columns_have_the_key_at_the_common_position", Implies(idx.isnone, forall([k], Implies(And(k >= 0, k < n_, has_key(C(k))), at_pos(C(k), fi.val)), patterns=[C(k)]))),
+        ]
+
+    c.invariant("L0", inv)
